@@ -95,6 +95,14 @@ func (r *RNN) Apply(inputs []tensor.Tensor) ([]tensor.Tensor, error) {
 	Ht := inputs[5]
 	if Ht == nil {
 		Ht = ops.ZeroTensor(1, batchSize, r.hiddenSize)
+	} else {
+		// Ht is reshaped below: work on a copy so that the caller's tensor keeps its shape.
+		clone, ok := Ht.Clone().(tensor.Tensor)
+		if !ok {
+			return nil, ops.ErrTypeAssert("tensor.Tensor", Ht.Clone())
+		}
+
+		Ht = clone
 	}
 
 	// Reshape the hidden tensor without the bidirectional dimension, as
